@@ -70,6 +70,14 @@ fn parse_file(tokens: &mut [RawToken]) -> Vec<LogicalLine> {
     let mut lines = FxHashMap::default();
     let mut attributed_directives = FxHashSet::default();
     for pass_tokens in tree.passes() {
+        #[cfg(feature = "verif_hooks")]
+        crate::verif::emit(|| {
+            crate::verif::Event::Step(
+                "pass",
+                pass_tokens.iter().map(|&i| i as i64).collect(),
+                vec![],
+            )
+        });
         let pass_lines =
             InternalDelphiLogicalLineParser::new(tokens, &pass_tokens, &mut attributed_directives)
                 .parse();
